@@ -44,6 +44,47 @@ DET = {
  "C19/2": ("./check C19 quick", "certchain-lookback-differs-from-node-rule"),
  "C20/1": ("./check C20 quick", "wait-extended-beyond-request-time (needed: a certificate arriving locally while a request is in flight)"),
  "C20/2": ("./check C20 quick", "poll-progress-not-store-advance (two peers, local arrival during the first request)"),
+ # ---- round 2 (different sites / mechanisms; multi-step, crash, configuration, two-site changes)
+ "C01/r2-1": ("./check C01 quick", "disagreement (eq4-byz-agree; free forgeries F: junk-certificate DECIDEs presented twice, accepted through the poisoned validation cache); also C05 verdict-depends-on-history:full"),
+ "C01/r2-2": ("./check C01 quick", "disagreement (skew4-byz 2/31/35/32: one hold + two forged DECIDE(Y) carrying the observed certificate for X through the two-stage route; needed the wire route, forged probes and the skewed table)"),
+ "C02/r2-1": ("./check C02 quick", "decision-not-prefix-of-honest-input (whale4-byz 7/1/1/1: a certificate signed by the Byzantine minnow alone credited with the largest entry's power); also C05 invalid-message-accepted:j.signers"),
+ "C02/r2-2": ("./check C02 quick", "decision-not-prefix-of-honest-input (forged junk-certificate vote accepted at the second presentation)"),
+ "C03/r2-1": ("./check C03 quick", "proof-aggregate-invalid / proof-cert-rejected (sender-swapped replays of genuine DECIDEs accepted from the validation cache; needed the donor warm-up on the probing route)"),
+ "C03/r2-2": ("./check C03 quick", "decision-not-turned-into-certificate (host half: history [0 0 0 0 1 0], look-back 2: base-only decision after a progressing one)"),
+ "C04/r2-1": ("./check C04 quick", "non-canonical-delta-accepted"),
+ "C04/r2-2": ("./check C04 quick", "invalid-chain-accepted:signed:instance-1"),
+ "C05/r2-1": ("./check C05 quick", "verdict-depends-on-history:full (rejected message cached as validated)"),
+ "C05/r2-2": ("./check C05 quick", "conc:reader-saw-progress-never-announced (engine E2 on the production progress cell; needed gpbft/progress.go among the instrumented files)"),
+ "C06/r2-1": ("./check C06 quick", "stalled-undecided / quiescent-undecided (a queued foreign-base QUALITY makes the start-up drain drop everything behind it; needed stall detection, also reached through the late-start policy)"),
+ "C06/r2-2": ("./check C06 quick", "stalled-undecided (PREPARE of round >=1 loses its justification value on the two-stage route; needed the wire route in liveness plans)"),
+ "C07/r2-1": ("./check C07 quick", "internal-error:ReceiveAlarm (a validation error escaping the queue drain; the monitor used to excuse validation errors from every API call)"),
+ "C07/r2-2": ("./check C07 quick", "honest-message-branded-invalid (dust4-honest in the quick tier: a zero-scaled-power member now votes)"),
+ "C08/r2-1": ("./check C08 quick", "could-reach-adversary-inexact (needed: a value without any tally entry)"),
+ "C08/r2-2": ("./check C08 quick", "table-depends-on-how-it-was-built (needed: tables built member by member / onto a copy)"),
+ "C09/r2-1": ("./check C10 quick", "crash-reopen-fails:put — a crash between two datastore writes of Put at the production checkpoint boundary: decided by C10's check (crash atomicity); C09's own check does not quantify over crashes and stays silent"),
+ "C09/r2-2": ("./check C09 quick", "conc:reader-saw-wrong-power-table (engine E2)"),
+ "C10/r2-1": ("./check C10 quick", "crash-reopen-fails:wip"),
+ "C10/r2-2": ("./check C10 quick", "crash-reopen-fails:put (needed histories at the real 1440 boundary: the lowered test frequency is not in effect during Open)"),
+ "C11/r2-1": ("./check C11 quick", "acknowledged-entry-lost (needed an append whose encoding fails part-way)"),
+ "C11/r2-2": ("./check C11 quick", "acknowledged-entry-lost"),
+ "C12/r2-1": ("./check C12 quick", "self-equivocation-on-wire (history b710Pa T2 f R b710Pb: early-network certificate, wrapped unsigned subtraction purges everything; needed the production finalize goroutine instead of a re-statement of it)"),
+ "C12/r2-2": ("./check C12 quick", "published-before-recorded (history T2 b710Pa: appending behind a torn tail)"),
+ "C13/r2-1": ("./check C13 quick", "two-stage-differs-from-one-shot:matching/original"),
+ "C13/r2-2": ("./check C13 quick", "strip-complete-not-identity:manager-buffered (needed completion by the real PartialMessageManager, buffered route)"),
+ "C14/r2-1": ("./check C14 quick", "roundtrip-mismatch:zstd+cbor/39 tipsets x 760-byte keys (needed the largest valid wire values)"),
+ "C14/r2-2": ("./check C14 quick", "fork-of-prefix-rewrites-parent (needed forks grown on prefix objects)"),
+ "C15/r2-1": ("./check C15 quick", "proposal-wrong-base (needed proposals for instances behind the store's latest certificate)"),
+ "C15/r2-2": ("./check C15 quick", "committee-from-unfinalized-history"),
+ "C16/r2-1": ("./check C16 quick", "poller-poisoned-by-earlier-response (needed a final honest poll after every script)"),
+ "C16/r2-2": ("./check C16 quick", "server-serves-at-or-beyond-pending (needed the store growing in the middle of a request)"),
+ "C17/r2-1": ("./check C17 quick", "malformed-snapshot-accepted:header-table-reversed-vs-manifest"),
+ "C17/r2-2": ("./check C17 quick", "malformed-snapshot-accepted:inserted-empty-block"),
+ "C18/r2-1": ("./check C18 quick", "unadmitted-chain-retrievable"),
+ "C18/r2-2": ("./check C18 quick", "admitted-chain-never-retrievable:own (needed the started service end to end with the start context cancelled)"),
+ "C19/r2-1": ("./check C19 quick", "sim-accepts-last-underpowered / sim-accepts-last-bad-aggregate (needed a forged decision that completes the instance)"),
+ "C19/r2-2": ("./check C19 quick", "certchain-certificate-commits-to-wrong-committee (needed one generator used for two chains)"),
+ "C20/r2-1": ("./check C20 quick", "cadence-does-not-settle (needed a crowd: one up-to-date peer, then 40 that never have anything)"),
+ "C20/r2-2": ("./check C20 quick", "poller-next-instance-not-store (needed certificates at the peers whose first also arrives locally during the request)"),
 }
 for d in sorted(glob.glob('/verif/seeded/C*/*')):
     if not os.path.isdir(d): continue
